@@ -194,20 +194,20 @@ inline constexpr void Conversion<Unit::Mass, Unit::Mass::Pound>::ToStandard(
 }
 
 template <typename NumericType>
-inline const std::map<Unit::Mass, std::function<void(NumericType* values, const std::size_t size)>>
-    MapOfConversionsFromStandard<Unit::Mass, NumericType>{
+inline constexpr auto MapOfConversionsFromStandard<Unit::Mass, NumericType>{
+  MakeConversionTable<Unit::Mass, NumericType>({
       {Unit::Mass::Kilogram,
        Conversions<Unit::Mass,                       Unit::Mass::Kilogram>::FromStandard<NumericType>},
       {Unit::Mass::Gram,     Conversions<Unit::Mass, Unit::Mass::Gram>::FromStandard<NumericType>    },
       {Unit::Mass::Slug,     Conversions<Unit::Mass, Unit::Mass::Slug>::FromStandard<NumericType>    },
       {Unit::Mass::Slinch,   Conversions<Unit::Mass, Unit::Mass::Slinch>::FromStandard<NumericType>  },
       {Unit::Mass::Pound,    Conversions<Unit::Mass, Unit::Mass::Pound>::FromStandard<NumericType>   },
+})
 };
 
 template <typename NumericType>
-inline const std::
-    map<Unit::Mass, std::function<void(NumericType* const values, const std::size_t size)>>
-        MapOfConversionsToStandard<Unit::Mass, NumericType>{
+inline constexpr auto MapOfConversionsToStandard<Unit::Mass, NumericType>{
+  MakeConversionTable<Unit::Mass, NumericType>({
           {Unit::Mass::Kilogram,
            Conversions<Unit::Mass,                       Unit::Mass::Kilogram>::ToStandard<NumericType>},
           {Unit::Mass::Gram,     Conversions<Unit::Mass, Unit::Mass::Gram>::ToStandard<NumericType>    },
@@ -215,6 +215,7 @@ inline const std::
           {Unit::Mass::Slinch,
            Conversions<Unit::Mass,                       Unit::Mass::Slinch>::ToStandard<NumericType>  },
           {Unit::Mass::Pound,    Conversions<Unit::Mass, Unit::Mass::Pound>::ToStandard<NumericType>   },
+})
 };
 
 }  // namespace Internal
